@@ -201,7 +201,7 @@ func runC01(p *an.Prog, r *an.Run, tier string) {
 	if transfer == nil {
 		r.Undec("pairing", "paired-transfer", token.NoPos, "no paired transfer (credits + negated debit) found among the ledger writers; expected payPerInterval.OnUpdate")
 	} else {
-		checkPairing(p, r, transfer)
+		checkPairing(p, r, transfer, true)
 	}
 
 	// ---- drivers
@@ -279,7 +279,7 @@ func settleCalls(fn *ssa.Function) []ssa.CallInstruction {
 	return out
 }
 
-func checkPairing(p *an.Prog, r *an.Run, fn *ssa.Function) {
+func checkPairing(p *an.Prog, r *an.Run, fn *ssa.Function, withAtomic bool) {
 	name := an.FuncName(fn)
 	var credits, debits []ssa.CallInstruction
 	for _, c := range an.Calls(fn, false) {
@@ -443,6 +443,9 @@ func checkPairing(p *an.Prog, r *an.Run, fn *ssa.Function) {
 
 	// atomic-transfer: credits and debit are separate store calls -> separate transactions
 	nWrites := len(credits) + len(debits)
+	if !withAtomic {
+		return
+	}
 	if nWrites > 1 {
 		r.Fail("atomic-transfer", name, debit.Pos(), "the transfer performs its credits and its debit as separate BalanceStore calls (separate transactions / critical sections): a debit that fails after the credits succeeded leaves credit created")
 	} else {
